@@ -21,6 +21,10 @@ pub enum PredKind {
     Hash(u8),
     /// fnv % 3: 0 -> null, 1 -> false, 2 -> true
     NullHash(u8),
+    /// rejects every row whose projected value equals that of one of the file rows `from..to` (used with a
+    /// row group's row range: the predicate empties exactly that row group, plus rows elsewhere that carry
+    /// the same projected value, e.g. nulls)
+    RejectRows(usize, usize),
 }
 
 #[derive(Clone, Debug, PartialEq, Eq)]
@@ -29,9 +33,13 @@ pub struct Pred {
     pub leaves: Vec<usize>,
 }
 
-pub fn pred_eval(kind: PredKind, row: &[V]) -> Option<bool> {
+pub type RejectSet = std::collections::HashSet<String>;
+
+/// `reject` is the value set of a `RejectRows` predicate (see `FileCtx::reject_set`)
+pub fn pred_eval(kind: PredKind, row: &[V], reject: Option<&RejectSet>) -> Option<bool> {
     let h = |k: u8| vcore::fnv64(format!("{k}|{row:?}").as_bytes()) % 3;
     match kind {
+        PredKind::RejectRows(..) => Some(!reject.expect("reject set").contains(&format!("{row:?}"))),
         PredKind::True => Some(true),
         PredKind::False => Some(false),
         PredKind::Hash(k) => Some(h(k) != 0),
@@ -143,12 +151,12 @@ fn policy_of(p: u8) -> Option<RowSelectionPolicy> {
     }
 }
 
-fn make_predicate(schema_descr: &parquet::schema::types::SchemaDescriptor, p: &Pred) -> Box<dyn ArrowPredicate> {
+fn make_predicate(schema_descr: &parquet::schema::types::SchemaDescriptor, p: &Pred, reject: Option<RejectSet>) -> Box<dyn ArrowPredicate> {
     let kind = p.kind;
     let mask = ProjectionMask::leaves(schema_descr, p.leaves.iter().copied());
     Box::new(ArrowPredicateFn::new(mask, move |batch: RecordBatch| {
         let rows = batch_rows(&batch);
-        Ok(rows.iter().map(|r| pred_eval(kind, r)).collect::<BooleanArray>())
+        Ok(rows.iter().map(|r| pred_eval(kind, r, reject.as_ref())).collect::<BooleanArray>())
     }))
 }
 
@@ -185,6 +193,17 @@ impl FileCtx {
             return Err(format!("{}: row group layout differs from what was requested", f.name));
         }
         Ok(FileCtx { f, meta_skip, meta_pi, full, rg_rows })
+    }
+
+    /// value set of a `RejectRows` predicate: the projected values of the file rows it names
+    pub fn reject_set(&self, p: &Pred) -> Option<RejectSet> {
+        match p.kind {
+            PredKind::RejectRows(from, to) => {
+                let m = self.leaf_mask(Some(&p.leaves));
+                Some(self.full[from.min(self.full.len())..to.min(self.full.len())].iter().map(|r| format!("{:?}", project_row(self.f.schema.as_ref(), r, &m))).collect())
+            }
+            _ => None,
+        }
     }
 
     pub fn meta(&self, o: &Opts) -> &ArrowReaderMetadata {
@@ -235,7 +254,7 @@ impl FileCtx {
             b = b.with_row_selection_policy(p);
         }
         if !o.preds.is_empty() {
-            let preds: Vec<Box<dyn ArrowPredicate>> = o.preds.iter().map(|p| make_predicate(b.parquet_schema(), p)).collect();
+            let preds: Vec<Box<dyn ArrowPredicate>> = o.preds.iter().map(|p| make_predicate(b.parquet_schema(), p, self.reject_set(p))).collect();
             b = b.with_row_filter(RowFilter::new(preds));
         }
         if o.cache0 {
@@ -266,7 +285,8 @@ impl FileCtx {
         }
         for p in &o.preds {
             let m = self.leaf_mask(Some(&p.leaves));
-            rows.retain(|r| pred_eval(p.kind, &project_row(schema, r, &m)) == Some(true));
+            let rs = self.reject_set(p);
+            rows.retain(|r| pred_eval(p.kind, &project_row(schema, r, &m), rs.as_ref()) == Some(true));
         }
         if let Some(n) = o.offset {
             rows = rows.into_iter().skip(n).collect();
@@ -285,7 +305,11 @@ impl FileCtx {
 // JSON (replay descriptors)
 
 fn pred_json(p: &Pred) -> Value {
+    if let PredKind::RejectRows(from, to) = p.kind {
+        return json!({"kind": "reject-rows", "from": from, "to": to, "leaves": p.leaves});
+    }
     let (k, n) = match p.kind {
+        PredKind::RejectRows(..) => unreachable!(),
         PredKind::True => ("true", 0),
         PredKind::False => ("false", 0),
         PredKind::Hash(k) => ("hash", k),
@@ -324,6 +348,7 @@ pub fn opts_from_json(v: &Value) -> Opts {
                         "true" => PredKind::True,
                         "false" => PredKind::False,
                         "hash" => PredKind::Hash(k),
+                        "reject-rows" => PredKind::RejectRows(p["from"].as_u64().unwrap() as usize, p["to"].as_u64().unwrap() as usize),
                         _ => PredKind::NullHash(k),
                     };
                     Pred { kind, leaves: usize_list(&p["leaves"]).unwrap_or_default() }
